@@ -13,7 +13,7 @@ N_THOROUGH = 6000
 THOROUGH_EXHAUSTIVE = True
 RULE = ('cases = corpus + random (data 0..48 bytes, Content-Length below/equal/above the data and negative, '
         'buffer 1..12, fragmentation schedules of short reads, early EOF, optional max_body_size), run through '
-        '_body_read directly and through Request.body (read twice, again through request.copy() after a partial read, again after a header is rewritten through Request.__setitem__ following a partial read, with wsgi.input a real io.BytesIO (recording subclass) holding more than the body or with a consumed prefix, and with WSGI extension flags / unrelated headers / other verbs in the environ: wsgi.input_terminated, Transfer-Encoding: identity, Expect, PUT/GET, HTTP/1.0, json/form content types), a fifth of them with a multipart Content-Type (closing delimiter + epilogue: the markup is fed while buffering); a tenth go through Ombott.__call__ with the body read at several points of the life of the request (before_request hook, handler, the generator the handler returned, after_request hook); a seventh of the cases are op sequences on the family of request objects descending from one request by copy() (model/ReqBody.v: body.read(k), copy(), rewrites of Content-Length and of other headers, a new wsgi.input) compared output by output and stream by stream; thorough adds every schedule of length <= 5 over read '
+        '_body_read directly and through Request.body (read twice, again through request.copy() after a partial read, again after a header is rewritten through Request.__setitem__ following a partial read, with wsgi.input a real io.BytesIO (recording subclass) holding more than the body or with a consumed prefix, and with WSGI extension flags / unrelated headers / other verbs in the environ: wsgi.input_terminated, Transfer-Encoding: identity, Expect, PUT/GET, HTTP/1.0, json/form content types), a fifth of them with a multipart Content-Type (closing delimiter + epilogue: the markup is fed while buffering); a tenth go through Ombott.__call__ with the body read at several points of the life of the request (before_request hook, handler, the generator the handler returned — before and after its first chunk —, after_request hook; a third of them with the extra environ entries); a seventh of the cases are op sequences on the family of request objects descending from one request by copy() (model/ReqBody.v: body.read(k), copy(), rewrites of Content-Length and of other headers, a new wsgi.input) compared output by output and stream by stream; thorough adds every schedule of length <= 5 over read '
         'caps {1,2,3,full} x body sizes 0..10 x buffers 1..4 x CL in {len-1,len,len+2} (exhaustive). '
         'non-trivial = at least two reads were issued and at least one of them was short or the body spilled; '
         'distinct by (len, cl, buf, schedule prefix actually consumed, via)')
@@ -91,6 +91,12 @@ def corpus():
         dict(data=list(range(40)), cl=34, buf=64, sched=[], maxb=None, via='app', points=[['before', None], ['handler', 3], ['gen', None], ['after', None]]),
         dict(data=d20, cl=20, buf=4, sched=[0] * 30, maxb=None, via='app', points=[['gen', 1], ['gen', None]]),
         dict(data=d20, cl=20, buf=4, sched=[], maxb=None, via='app', points=[['after', 5], ['gen', None]]),
+        # the body is first touched only after the response has started (second chunk of a streaming handler)
+        dict(data=list(range(40)), cl=34, buf=8, sched=[], maxb=None, via='app', points=[['gen_late', None]]),
+        dict(data=list(range(40)), cl=34, buf=64, sched=[3, 3], maxb=None, via='app', points=[['gen_late', 4], ['gen_late', None]]),
+        # unrelated headers must not change which bytes are the body, through the application too
+        dict(data=list(range(40)), cl=34, buf=8, sched=[], maxb=None, via='app', points=[['handler', None]], extra='te_identity'),
+        dict(data=list(range(40)), cl=34, buf=8, sched=[], maxb=None, via='app', points=[['gen', None]], extra='terminated'),
         # op sequences on the family of request objects descending from one request by copy()
         # (model/ReqBody.v): ('body', r, k|None) ('copy', r) ('setcl', r, v) ('setother', r, which) ('setinput', r, data, sched)
         dict(data=list(range(1, 8)), cl=5, buf=3, sched=[0, 1], maxb=None, via='ops',
@@ -143,8 +149,10 @@ def gen(rng, n):
             continue
         if rng.random() < 0.1:
             case['via'] = 'app'
-            case['points'] = [[rng.choice(['before', 'handler', 'gen', 'after']), rng.choice([None, None, 0, 1, 2, ln])]
+            case['points'] = [[rng.choice(['before', 'handler', 'gen', 'gen_late', 'after']), rng.choice([None, None, 0, 1, 2, ln])]
                               for _ in range(rng.randrange(1, 5))]
+            if rng.random() < 0.3:
+                case['extra'] = rng.choice(EXTRAS)
             if not any(pt[1] is None for pt in case['points']):
                 case['points'].append([rng.choice(['handler', 'gen']), None])
             case['sched'] = case['sched'][:20]
@@ -277,7 +285,8 @@ def _run_app(case):
     st = FragStream(case['data'], case['sched'])
     app = ombott.Ombott(dict(max_memfile_size=case['buf'], max_body_size=case['maxb'], catchall=False))
     reads, spill = [], []
-    order = {'before': 0, 'handler': 1, 'after': 2, 'gen': 3}      # the generator body runs after _handle returned
+    # the generator body runs after _handle returned; 'gen_late' = after its first chunk was handed over
+    order = {'before': 0, 'handler': 1, 'after': 2, 'gen': 3, 'gen_late': 4}
     pts = sorted(case['points'], key=lambda pt: order[pt[0]])
 
     def look(where):
@@ -293,13 +302,17 @@ def _run_app(case):
     @app.route('/u', method='POST')
     def handler():
         look('handler')
-        if any(w == 'gen' for w, _ in pts):
+        if any(w in ('gen', 'gen_late') for w, _ in pts):
             def stream():
                 look('gen')
-                yield b'done'
+                yield b'do'
+                look('gen_late')
+                yield b'ne'
             return stream()
         return 'done'
     env = environ('POST', '/u', **{'wsgi.input': st})
+    if case.get('extra'):
+        env.update({k: v for k, v in EXTRA_ENV[case['extra']].items() if k != 'REQUEST_METHOD'})
     if case['cl'] >= 0:
         env['CONTENT_LENGTH'] = str(case['cl'])
     else:
